@@ -254,6 +254,25 @@ def replay_contract(c, obligation, cex):
                 last = r2
                 break
     CONNECTION_STRATEGY[0] = 'all'
+    if not (last or {}).get("confirmed") and '/trace.' in obligation:
+        # byte inputs the model left empty say nothing about what a text built from them shows:
+        # try again with recognisable sample bytes in their place (still a real run of the real code)
+        import copy as _copy
+
+        def inflate(v):
+            if isinstance(v, (bytes, bytearray)) and len(v) == 0:
+                return bytes.fromhex("c0ffee0badc0de42")
+            if isinstance(v, dict):
+                return {k: inflate(x) for k, x in v.items()}
+            if isinstance(v, list):
+                return [inflate(x) for x in v]
+            if isinstance(v, tuple):
+                return tuple(inflate(x) for x in v)
+            return v
+        r2 = _replay_contract(c, obligation, inflate(_copy.deepcopy(cex)))
+        if r2.get("confirmed"):
+            r2["empty_byte_inputs_replaced_by_sample_bytes"] = True
+            return r2
     return last
 
 
